@@ -295,6 +295,9 @@ func runExplore(b *built, prop string, p part, tier string, fds []finding, known
 		return rep, nil, nil, nil
 	}
 	depths := p.Depths[tier]
+	if v, err := strconv.Atoi(os.Getenv("VERIF_DEPTH")); err == nil { // experimentation only
+		depths = []int{v}
+	}
 	budget := p.Budget[tier]
 	deadline := time.Time{}
 	if budget > 0 {
